@@ -333,6 +333,19 @@ func c08New(c *fw.Case) {
 		}
 		bad.enums["absent-enum-column"] = []string{"a"}
 		expectErr("enums-absent column named in Enums", bad)
+		// an entry naming a column that cannot be an enum (int, float, bool; slice or constant)
+		for _, col := range f.Cols {
+			if col.Kind == model.KString || col.Kind == model.KEnum {
+				continue
+			}
+			bad := clone()
+			if bad.enums == nil {
+				bad.enums = map[string][]string{}
+			}
+			bad.enums[col.Name] = [][]string{nil, {"a", "b"}}[rng.Intn(2)]
+			expectErr(fmt.Sprintf("enums-entry for the %s column %q", col.Kind, col.Name), bad)
+			break
+		}
 	}
 	// (d') an enum column holding a value outside its declared values, in every encoding of the column,
 	// next to the other columns and as the only column of the input
